@@ -241,7 +241,11 @@ impl Encoder for TTYEncoder {
                     TerminalColor::Palette(index) => write!(out, "4;{};", index)?,
                 }
                 match color {
-                    Some(color) => write!(out, "{}", color)?,
+                    Some(color) => {
+                        // X color specification has no alpha component
+                        let [r, g, b] = color.to_rgb();
+                        write!(out, "#{:02x}{:02x}{:02x}", r, g, b)?
+                    }
                     None => write!(out, "?")?,
                 }
                 write!(out, "\x1b\\")?;
